@@ -235,6 +235,16 @@ class Check:
         shutil.rmtree(self.dir, ignore_errors=True)
         os.makedirs(self.dir, exist_ok=True)
         self.known = load_known(prop)
+        self.broken_obligations: List[Dict[str, str]] = []
+        self.replay_file: Optional[str] = None
+        self.model_ok = True
+
+    def broken(self, b: "Broken") -> None:
+        """A proof obligation / translation / tie no longer checks.  Recorded; the run goes on
+        to search for a concrete failing input.  At finish(), if none was found, the violation
+        is reported with no-failing-input-found."""
+        self.broken_obligations.append({"what": b.what, "detail": b.detail[-3000:]})
+        print(f"[{self.prop}] BROKEN: {b.what}", file=sys.stderr)
 
     @property
     def quick(self) -> bool:
@@ -253,7 +263,7 @@ class Check:
         if bad:
             raise Broken("forbidden construct in the Coq development", "\n".join(bad))
         vo = f"props/{prop_file}o"
-        ok, log = coq_build([vo] + list(extra_targets))
+        ok, log = coq_build([vo, "theories/Eqb.vo"] + list(extra_targets))
         if not ok:
             m = re.search(r'File "\./([^"]+)", line (\d+)', log)
             where = f"{m.group(1)}:{m.group(2)}" if m else "?"
@@ -271,6 +281,26 @@ class Check:
         self.coverage["checker_cmd"] = (
             f"cd {COQ} && coq_makefile -f _CoqProject -o Makefile && make {vo}  "
             f"(coqc 8.16.1, full .vo build; Print Assumptions after every theorem)")
+
+    def try_prove(self, prop_file: str, model_vo: Sequence[str] = ("theories/Eqb.vo",)) -> None:
+        """prove(), but a failure is recorded (not raised) so that the run can go on and
+        search the implementation for a concrete failing input.  If the translation itself
+        failed, the last accepted translation (coq/ref) stands in for the model during that
+        search."""
+        try:
+            self.prove(prop_file)
+            return
+        except Broken as b:
+            self.broken(b)
+        # can the executable model still be built?
+        ok, log = coq_build(list(model_vo))
+        if not ok:
+            for f in os.listdir(os.path.join(COQ, "ref")):
+                if f.endswith(".v"):
+                    shutil.copy(os.path.join(COQ, "ref", f), os.path.join(COQ, "gen", f))
+            ok, log = coq_build(list(model_vo))
+            self.coverage["tie"]["model_from_reference_translation"] = True
+        self.model_ok = ok
 
     # ---- violations ----------------------------------------------------------------
     def violation(self, what: str, replay: Dict[str, Any], found_input: bool = True,
@@ -292,6 +322,15 @@ class Check:
             print(msg)
         rc = 0
         vio_lines = []
+        if self.broken_obligations:
+            for v in self.violations:
+                v["replay"]["broken_obligations"] = self.broken_obligations
+            if not any(v["found_input"] for v in self.violations):
+                self.violations.insert(0, {
+                    "what": "proof obligation / tie no longer checks: " + self.broken_obligations[0]["what"],
+                    "replay": {"broken_obligations": self.broken_obligations,
+                               "note": "searched the implementation for a concrete failing input; none found"},
+                    "found_input": False})
         if self.violations:
             os.makedirs(os.path.join(VERIF, "replays"), exist_ok=True)
             seen = set()
